@@ -577,11 +577,13 @@ impl Xot {
 
     /// Iterator over the child nodes of this node, in reverse order.
     pub fn reverse_children(&self, node: Node) -> impl Iterator<Item = Node> + '_ {
-        node.get()
-            .children(self.arena())
-            .rev()
-            .take_while(|n| self.arena[*n].get().is_normal())
-            .map(Node::new)
+        // walk the sibling links backwards from the last child; reversing indextree's
+        // children iterator does not advance past the last child
+        std::iter::successors(self.arena[node.get()].last_child(), move |n| {
+            self.arena[*n].previous_sibling()
+        })
+        .take_while(|n| self.arena[*n].get().is_normal())
+        .map(Node::new)
     }
 
     fn normal_filter(&self) -> impl Fn(&indextree::NodeId) -> bool + '_ {
